@@ -790,6 +790,9 @@ theorem apply_own {s s' : St} {o : Op} (h : OwnN s) (e : apply s o = .ok s') : O
   | fraud au ra hh rev p rw => exact fraud_own h e
   | obsolete au vs => exact markObsolete_own h e
   | punish au a rw => exact punish_own h (punishProposal_ok e).2
+  | transferOwner sg ra' no =>
+    obtain ⟨r, hg, _, _, _, rfl⟩ := transferOwner_ok e
+    exact h.setRa_same hg rfl rfl rfl
   | begin_ dt => simp only [apply] at e; injection e with e; subst e; exact beginBlock_own h
   | end_ f => simp only [apply] at e; injection e with e; subst e; exact endBlock_own h
 
